@@ -116,4 +116,34 @@ func init() {
 		}
 		return append(steps, remove, wait, remove, wait, wait, remove)
 	}
+	// lastBridgeValidatorLeaves (keyless worlds only, queued by RunCase): every validator but one runs without a bridge
+	// key, so the bridge validator set consists of that one validator; its operator then undelegates its whole
+	// self-delegation (less than 5 % of the bonded stake, so the stake-change limit lets it pass) and the validator
+	// leaves the bonded set: from then on no bonded validator has an EVM address
+	fragments["lastBridgeValidatorLeaves"] = func(g *Gen) []func() [][]byte {
+		if !g.c.W.Cfg.Keyless || g.c.W.Cfg.KeyedVal >= len(g.c.W.Vals) {
+			return nil
+		}
+		v := g.c.W.Vals[g.c.W.Cfg.KeyedVal]
+		leave := func() [][]byte {
+			ctx := g.c.CommittedCtx()
+			del, err := g.c.App.StakingKeeper.GetDelegation(ctx, v.Op.Addr, v.ValAdr)
+			if err != nil {
+				return nil
+			}
+			val, err := g.c.App.StakingKeeper.GetValidator(ctx, v.ValAdr)
+			if err != nil {
+				return nil
+			}
+			amt := val.TokensFromShares(del.Shares).TruncateInt()
+			if !amt.IsPositive() {
+				return nil
+			}
+			if t := g.tx(v.Op, &stakingtypes.MsgUndelegate{DelegatorAddress: v.Op.Bech(), ValidatorAddress: v.ValAdr.String(), Amount: sdk.NewCoin(Denom, amt)}); t != nil {
+				return [][]byte{t}
+			}
+			return nil
+		}
+		return []func() [][]byte{wait, wait, wait, wait, wait, wait, wait, wait, leave, wait, leave, wait, wait}
+	}
 }
